@@ -106,6 +106,12 @@ func runTask(t *Task) *Result {
 	outcomes := map[string]bool{}
 	seen := map[string]bool{}
 	opt := vs.Options{Strategy: vs.SleepSets, PreemptBound: -1, Cfg: sc.Config(), MaxExecs: t.MaxExecs}
+	if sc.PreemptBound > 0 {
+		opt.Strategy, opt.PreemptBound = vs.Plain, sc.PreemptBound-1
+	}
+	if sc.MaxExecs > 0 {
+		opt.MaxExecs = sc.MaxExecs
+	}
 	if t.DeadlineS > 0 {
 		opt.Deadline = start.Add(time.Duration(t.DeadlineS) * time.Second)
 	}
